@@ -463,6 +463,13 @@ class modict(odict):
         super(modict, self).__init__()  # must do this first
         self.update(*pa, **kwa)
 
+    def __getstate__(self):
+        """
+        return state as list of all (key, value) items so that pickle and copy
+        keep every value of every key not only the newest
+        """
+        return self.allitems()
+
     def __getitem__(self, key):
         return super(modict, self).__getitem__(key)[-1] #newest
     def __setitem__(self, key, value):
